@@ -144,6 +144,17 @@ C07 == LET a == Val(k, x)  b == Val(k, y) IN
             ClampDomain(k, x, y) =>
               Clamp(k, z, x, y) = Enc(IF c < a THEN a ELSE IF c > b THEN b ELSE c)
 
+(* ------------------------------ C16 ----------------------------------- *)
+\* mixed-sign comparisons are comparisons of the mathematical values
+C16 == \A ka \in {"u", "i"}, kb \in {"u", "i"} :
+          LET a == Val(ka, x)  b == Val(kb, y) IN
+          /\ MixCmpOp("cmp_less", ka, x, kb, y) = (a < b)
+          /\ MixCmpOp("cmp_less_equal", ka, x, kb, y) = (a <= b)
+          /\ MixCmpOp("cmp_greater", ka, x, kb, y) = (a > b)
+          /\ MixCmpOp("cmp_greater_equal", ka, x, kb, y) = (a >= b)
+          /\ MixCmpOp("cmp_equal", ka, x, kb, y) = (a = b)
+          /\ MixCmpOp("cmp_not_equal", ka, x, kb, y) = (a # b)
+
 (* ------------------------------ C17 ----------------------------------- *)
 C17 == /\ Conv(k, x, L) = x
        /\ Conv(k, x, L + 1) = FromNatL(Val(k, x) % (256 * TW), L + 1)   \* static_cast widening
